@@ -4,6 +4,7 @@ import (
 	"bytes"
 	"encoding/json"
 	"fmt"
+	cpb "github.com/google/go-sev-guest/proto/check"
 	"os"
 	"os/exec"
 	"regexp"
@@ -74,6 +75,10 @@ type c09env struct {
 	// one, "unendorsed" the same with a corrupted signature
 	attSelf  map[string]*spb.Attestation
 	sevOptNo func() *gtb.SevValidateOptions // no Endorsement in the options
+	// two different endorsed firmware builds, each attestation carrying its own endorsement, validated
+	// with one options value that has a base policy and names the launch VMSA count
+	attBuild   [2]map[string]*spb.Attestation
+	sevOptBase func() *gtb.SevValidateOptions
 }
 
 func newC09env() (*c09env, error) {
@@ -105,6 +110,31 @@ func newC09env() (*c09env, error) {
 	}
 	e.sevOptNo = func() *gtb.SevValidateOptions {
 		return &gtb.SevValidateOptions{RootsOfTrust: pool(m.RootCert), Now: now}
+	}
+	for b := 0; b < 2; b++ {
+		meas := Meas(fmt.Sprintf("build-%d", b))
+		gsb := GoldenSpec{Snp: map[uint32][]byte{2: meas}, Digest: Meas(fmt.Sprintf("fw-%d", b)), Timestamp: time.Date(2025, 2, 1, 0, 0, 0, 0, time.UTC), ClSpec: 7, Cert: m.SignCert.Raw, Svn: 1}
+		eb := Endorse(gsb.Proto(), m.S)
+		good, _ := proto.Marshal(eb)
+		bad := proto.Clone(eb).(*epb.VMLaunchEndorsement)
+		bad.Signature = append([]byte{}, bad.Signature...)
+		bad.Signature[10] ^= 0x40
+		badb, _ := proto.Marshal(bad)
+		e.attBuild[b] = map[string]*spb.Attestation{
+			"endorsed":   {Report: Report(meas), CertificateChain: &spb.CertificateChain{VcekCert: m.Vcek.Raw, Extras: map[string][]byte{sevGUID: good}}},
+			"unendorsed": {Report: Report(meas), CertificateChain: &spb.CertificateChain{VcekCert: m.Vcek.Raw, Extras: map[string][]byte{sevGUID: badb}}},
+		}
+	}
+	e.sevOptBase = func() *gtb.SevValidateOptions {
+		return &gtb.SevValidateOptions{RootsOfTrust: pool(m.RootCert), Now: now, ExpectedLaunchVmsas: 2,
+			BasePolicy: &cpb.Policy{MinimumVersion: "0.0", MinimumBuild: 0}}
+	}
+	for b := 0; b < 2; b++ {
+		for k, a := range e.attBuild[b] {
+			if ok := gtb.SevValidate(fx.Ctx(nil, false, false), a, e.sevOptBase()) == nil; ok != (k == "endorsed") {
+				return nil, fmt.Errorf("fixture: build %d attestation %s with a base policy alone gives %v (%v)", b, k, ok, gtb.SevValidate(fx.Ctx(nil, false, false), a, e.sevOptBase()))
+			}
+		}
 	}
 	for k, a := range e.attSelf {
 		if ok := gtb.SevValidate(fx.Ctx(nil, false, false), a, e.sevOptNo()) == nil; ok != (k == "endorsed") {
@@ -226,9 +256,9 @@ func RunC09(run *vk.Run) {
 				run.Infra(err)
 				return
 			}
-			modes := []string{"one-validator", "validators-sharing-options", "SevValidate", "SevValidate-extracting"}
+			modes := []string{"one-validator", "validators-sharing-options", "SevValidate", "SevValidate-extracting", "SevValidate-base-policy"}
 			if n == 4 {
-				modes = modes[:1+i%4]
+				modes = modes[:1+i%5]
 				modes = modes[len(modes)-1:]
 			}
 			for _, mode := range modes {
@@ -237,7 +267,9 @@ func RunC09(run *vk.Run) {
 				one := verify.SNPValidateFunc(shared)
 				sevShared := env.sevOpt()
 				sevSharedNo := env.sevOptNo()
+				sevSharedBase := env.sevOptBase()
 				for p := range c.Att {
+					abuild := env.attBuild[p%2][c.Att[p]]
 					a := env.attOf[c.Att[p]]
 					aself := env.attSelf[c.Att[p]]
 					switch mode {
@@ -246,6 +278,8 @@ func RunC09(run *vk.Run) {
 					case "validators-sharing-options":
 						f := verify.SNPValidateFunc(shared)
 						calls = append(calls, func() error { return f(a, env.eb) })
+					case "SevValidate-base-policy":
+						calls = append(calls, func() error { return gtb.SevValidate(ctx, abuild, sevSharedBase) })
 					case "SevValidate-extracting":
 						calls = append(calls, func() error { return gtb.SevValidate(ctx, aself, sevSharedNo) })
 					default:
@@ -320,7 +354,7 @@ func RunC09(run *vk.Run) {
 		run.Extra["race_stress"] = "skipped (no -race binary)"
 	}
 	run.Exhaustive = true
-	run.Rule = "every interleaving of the two segments of N concurrent validator calls (N=2,3; thorough also 4) x every assignment of endorsed/unendorsed attestations emitted by TLC is forced on the real closure with the verifhook gate, in three sharing modes (one validator, validators from one Options value, concurrent SevValidate); each call's result is compared with its isolated result; plus a free-running 16-goroutine stress under the race detector"
+	run.Rule = "every interleaving of the two segments of N concurrent validator calls (N=2,3; thorough also 4) x every assignment of endorsed/unendorsed attestations emitted by TLC is forced on the real closure with the verifhook gate, in five sharing modes (one validator, validators from one Options value, SevValidate with a given endorsement, SevValidate extracting it, SevValidate with a shared base policy over two endorsed builds); each call's result is compared with its isolated result; plus a free-running 16-goroutine stress under the race detector"
 }
 
 func tailStr(s string, n int) string {
